@@ -177,7 +177,8 @@ class FileStream(Stream):
     name = "file"
     rule = ("generated .reuse/dep5 files (1-4 Files paragraphs, 1-3 patterns each from a plain-glob grammar, a third of the paragraphs with a pattern that is not in normal POSIX form -- ./x, x//y, x/./y, x/, /x, x/../y: dead under dep5 --, multi-line "
             "copyright, comments; every second file with a generated HEADER paragraph -- each of Upstream-Name, Upstream-Contact (1-2 lines), Source, Disclaimer, Comment, "
-            "Copyright (1-3 lines), License (with or without the licence text) present or absent, in four field orders --, 0-2 stand-alone License "
+            "Copyright (1-3 lines), License (with or without the licence text) present or absent, in four field orders --, a quarter of the Files "
+            "paragraphs there with the licence text after the expression of their License field, 0-2 stand-alone License "
             "paragraphs before / after the Files paragraphs, 0-5 files with own information of four kinds (header with both / copyright only / licence only / "
             ".license sibling), 40 % of those with narrow Files paragraphs only so that most paths are matched by none; plus 14 fixed shapes where only the "
             "header paragraph carries Copyright / License; 40 % with a later paragraph repeating the copyright / licence of an earlier one around a different one, plus "
@@ -279,6 +280,9 @@ class FileStream(Stream):
                 if rng.random() < 0.4:
                     # narrow paragraphs only: most of the tree is matched by no Files paragraph
                     case["paras"] = [dict(p, g=rng.sample(self.NARROW, rng.randint(1, 2))) for p in paras[:rng.randint(1, 2)]]
+                for p in case["paras"]:
+                    if rng.random() < 0.25:
+                        p["text"] = True    # the License field of a Files paragraph carries the licence text after the expression
             yield case
         # the header paragraph alone carries information, with every optional field present; the Files paragraphs are narrow, so most
         # paths are matched by none of them (with and without information of their own)
@@ -292,7 +296,7 @@ class FileStream(Stream):
                                   {"comment": ["only a comment"], "disclaimer": ["only a disclaimer"], "order": 1})):
             own = [["src/a.c", "docs/x.md"], ["README"], [], ["src/a.c", "src/lib/d.h", "b.md", "data/1.json"]][k % 4]
             kinds = {f: self.OWN_KINDS[(k + j) % len(self.OWN_KINDS)] for j, f in enumerate(own)}
-            yield {"paras": [dict(narrow, g=["data/*.json"])], "own": own, "own_kinds": kinds, "head": head, "lic_paras": []}
+            yield {"paras": [dict(narrow, g=["data/*.json"], text=k % 2 == 0)], "own": own, "own_kinds": kinds, "head": head, "lic_paras": []}
             yield {"paras": [dict(narrow, g=["docs/img/*.png", "a.txt"]), dict(narrow, g=["src/lib/*"], l="MIT")], "own": own, "own_kinds": kinds,
                    "head": head, "lic_paras": [{"l": "0BSD", "comment": True}]}
         # ours / theirs / ours again, nested: `*`, `src/*`, `src/lib/*`
@@ -319,7 +323,7 @@ class FileStream(Stream):
             (out if k % 2 else tail).append(t)
         for p in paras:
             out.append("\nFiles: %s\nCopyright: %s\nLicense: %s\n" % (
-                " ".join(p["g"]), "\n           ".join(p["c"]), p["l"]))
+                " ".join(p["g"]), "\n           ".join(p["c"]), self.multiline([p["l"]] + self.LICENCE_TEXT) if p.get("text") else p["l"]))
             if p["comment"]:
                 out[-1] += "Comment: some\n comment\n"
         return "".join(out + tail)
@@ -389,6 +393,8 @@ class FileStream(Stream):
                         break
                 else:
                     detail = "summary: %s -> %s" % (json.dumps(nb[1:]), json.dumps(na[1:]))
+            if not same and after is None:
+                detail = "after the conversion `reuse lint --json` gives no report (exit %s%s)" % (code1, ", %s" % type(exc1).__name__ if exc1 is not None else "")
             attributed = len({json.dumps(v[0]) for v in (norm(after)[0].values() if after else [])})
             return json.dumps({"exit": code, "log": log, "dep5": has_dep5, "toml": has_toml, "same": same,
                                "lint_exit": [code0, code1], "distinct": attributed, **({"detail": detail[:400]} if detail else {})}, sort_keys=True)
